@@ -6,7 +6,9 @@
 // LEN (declared payload bytes), TRAIL (bytes following the declared length inside the frame), CNT (sequence-counter
 // offset from the endpoint's symbolic start counter), VX (1: different protocol version), TX (1: different message
 // type), BAD (1: message-level invalid: error-in-payload flag set; 2: declared length exceeds the frame),
-// KIND (0 CMP frame, 1 TECMP-routed frame (first byte 0), 2 undersized buffer (< 8 bytes)),
+// KIND (0 CMP frame, 1 TECMP-routed frame (first byte 0), 2 undersized buffer (< 8 bytes), 3 runt frame: the endpoint's
+// 8-byte CMP header followed by RUNTLEN (1..15) arbitrary bytes - a message cut off inside its header: invalid, ends the
+// endpoint's open message),
 // AGG (only with SEG 0, BAD 0, TRAIL 0: a second message of AGGLEN bytes follows in the same frame - 1 unsegmented,
 // 2 last segment (an orphan there), 3 first segment (opens a reassembly), 4 invalid (error-in-payload flag)).
 #include <asam_cmp/decoder.h>
@@ -145,6 +147,9 @@ using namespace ASAM::CMP;
 #define AGG_3 0
 #endif
 #define AGGLEN 4
+#ifndef RUNTLEN
+#define RUNTLEN 5
+#endif
 #ifndef DUP_0
 #define DUP_0 -1
 #endif
@@ -386,7 +391,19 @@ VP_HARNESS(h_seq)
         const int e = EP[f];
         // ---- build the frame
         unsigned n = 0;
-        if (KIND[f] == 2)
+        if (KIND[f] == 3)
+        {
+            uint8_t* b = g_frame;
+            b[0] = VX[f] ? 2 : 1;
+            b[1] = 0;
+            vp_put16(b + 2, dev[e]);
+            b[4] = TX[f] ? 3 : 1;
+            b[5] = stream[e];
+            vp_put16(b + 6, static_cast<uint16_t>(start[e] + CNT[f]));
+            vp_bytes(b + 8, RUNTLEN);
+            n = 8 + RUNTLEN;
+        }
+        else if (KIND[f] == 2)
         {
             n = 7;
             vp_bytes(g_frame, 7);
@@ -438,6 +455,8 @@ VP_HARNESS(h_seq)
         unsigned expN = 0;
         static uint8_t expBytes[BUFMAX];
         Open& o = g_open[e];
+        if (KIND[f] == 3)
+            o.open = false;  // an incomplete (invalid) message of this endpoint
         if (KIND[f] == 0)
         {
             if (BAD[f])
